@@ -204,7 +204,9 @@ type renderer struct {
 }
 
 func (r *renderer) sub(n *Node) string {
-	if n.T == "leaf" || n.T == "varref" {
+	if n.T == "leaf" || n.T == "varref" || n.T == "addr" {
+		// (an address-of argument must stay a bare &x[i]: anko looks at the
+		// argument expression itself after a Go call)
 		return r.src(n)
 	}
 	return "(" + r.src(n) + ")"
